@@ -150,7 +150,9 @@ impl MainContext {
         // are two SUBs declared but not implemented (and not called either)
         self.subs.ensure_does_not_clash_with_built_in(|name| {
             BuiltInSub::parse_non_keyword_sub(name.as_ref()).is_some()
-        })
+        })?;
+        // a name is a SUB or a FUNCTION, not both
+        self.subs.ensure_does_not_clash_with(&self.functions)
     }
 }
 
